@@ -260,7 +260,8 @@ def decide_verus(prop, tier, seed, notes):
     """returns (obligation records, violations, undecided reasons, unit results)"""
     P = registry.PROPS[prop]
     units = list(P.get("verus", []))
-    runs = [(u, ()) for u in units] + [(u, ("VACUITY",)) for u in units]
+    primary = [tuple(v) for v in P.get("variants", [()])]
+    runs = [(u, v) for u in units for v in primary] + [(u, ("VACUITY",)) for u in units]
     if tier == "thorough":
         for var in P.get("thorough_variants", []):
             runs += [(u, tuple(var)) for u in units if registry.UNITS[u].get("variants", True)]
@@ -300,7 +301,7 @@ def decide_verus(prop, tier, seed, notes):
             if e["kind"] == "compile":
                 undecided.append(f"{label}: verus rejected: {e['message']} @ {e['clause'][:200]}")
         lost = sorted(set(base["passing"]) - passing_now - failing_now)
-        if lost and not var:
+        if lost:
             undecided.append(f"{label}: obligations present at baseline are missing now: {lost[:8]}")
         for n, v in sorted(r["functions"].items()):
             s = simple(n)
